@@ -46,6 +46,8 @@ SPECS = {
     "dni": ["dict", "str", "int"],
     "dnl": ["dict", "int", ["list", "int", 0, BIG]],
     "lni": ["list", "int", 0, BIG],
+    "l0": ["list", "int", 0, 0],          # maxlen=0: must stay empty for ever
+    "ll0": ["list", ["list", "int", 0, 0], 0, BIG],
 }
 
 
@@ -72,6 +74,8 @@ class Holder(HasTraits):
     dni = Dict(Str, Int, items=False)
     dnl = Dict(Int, List(Int), items=False)
     lni = List(Int, items=False)
+    l0 = List(Int, maxlen=0)
+    ll0 = List(List(Int, maxlen=0))
     # declared with a lower bound but WITHOUT a default of its own (the implicit [] is too short): whatever reading it
     # does, it never hands out a list that violates the bound
     lnd = List(Int, minlen=2)
@@ -288,6 +292,9 @@ def op_strategy():
     alts.append(st.tuples(st.just(["dnl"]), dict_ops("int", "lint")).map(list))
     alts.append(st.tuples(st.tuples(st.just("dnl"), IDX).map(list), list_ops("int")).map(list))
     alts.append(st.tuples(st.just(["lni"]), list_ops("int")).map(list))
+    alts.append(st.tuples(st.just(["l0"]), list_ops("int")).map(list))
+    alts.append(st.tuples(st.just(["ll0"]), list_ops("lint")).map(list))
+    alts.append(st.tuples(st.tuples(st.just("ll0"), IDX).map(list), list_ops("int")).map(list))
     alts.append(st.tuples(st.just(["si"]), set_ops("int")).map(list))
     alts.append(st.tuples(st.just(["sf"]), set_ops("float")).map(list))
     return st.one_of(alts)
@@ -537,7 +544,7 @@ def run(case, ctx):
         o.on_trait_change(lambda obj, nm, old, new: ev.append(nm), n + "_items")
         o.on_trait_change(lambda obj, nm, old, new: ev.append(nm), n)
         o.observe(lambda e: ev.append("observe"), n + ".items")
-    for n in ("ll", "lbb", "dl", "dnl"):
+    for n in ("ll", "lbb", "dl", "dnl", "ll0"):
         o.observe(lambda e: ev.append("observe-inner"), n + ".items.items")
     interesting = False
     for dn, lo in (("lnd", 2), ("lnd1", 1)):
